@@ -479,8 +479,9 @@ def scenarios():
 
 
 def userid_copy():
-    """UserID.__copy__: the copy serialises to the same octets as the original - also for a user id whose octets are not UTF-8 (read
-    with the Latin-1 fallback and written back through it)"""
+    """UserID.__copy__: a new packet with a copy of the header and the same text (that the copy of a PARSED packet serialises to the
+    octets that were read - also octets that are not UTF-8 - is an obligation of UserID.parse+__bytearray__, stated on the octets and not
+    on the field that remembers the codec)"""
     label = 'C08/UserID.__copy__'
     U = P + 'UserID'
 
@@ -505,9 +506,6 @@ def userid_copy():
                      z3.BoolVal(isinstance(v, E.VObj) and v.ref == 'copy' and isinstance(s.heap.get(('copy', 'header')), E.VObj) and s.heap[('copy', 'header')].ref == 'hdr-copy'))
             t = s.heap.get(('copy', 'uid'))
             r.oblige(s, 'same-text/p%d' % pi, t.z == TEXT if isinstance(t, E.VStr) and t.z is not None else z3.BoolVal(False))
-            f2 = s.heap.get(('copy', '_encoding_fallback'))
-            r.oblige(s, 'written-back-through-the-same-codec-as-the-original(so-the-same-octets)/p%d' % pi,
-                     ex.truth(f2, s) == fb if f2 is not None else z3.BoolVal(False))
         return r.result()
     return Scenario(label, U + '.__copy__', gen, props=('C08', 'C14', 'C07'))
 
@@ -667,6 +665,8 @@ def userid_codec():
         r.set('pkt', 'uid', E.VStr(s=''))
         r.set('pkt', '_encoding_fallback', E.VBool(False))
         r.hook('pgpy.packet.types.Packet', '__bytearray__', scn.method_hook(lambda ex, st, o, a: [(st, ex.new_buf(st, HDR))]))
+        r.hook('pgpy.packet.types.Header', '__copy__', scn.method_hook(lambda ex, st, o, a: [(st, E.VObj('pgpy.packet.types.Header', 'hdr-copy'))]))
+        r.hook(UID, '__call__', lambda ex, st, c, a: [(st, E.VObj(UID, 'copy'))])
         VALID = z3.Function('VALID[utf-8]', B, z3.BoolSort())
         body = z3.Extract(OLD, 0, HL)
         lk = repo.lookup(UID, '__bytearray__')
@@ -687,6 +687,19 @@ def userid_codec():
                     r.oblige(s2, 'unedited:safety(%s)/p%d.%d' % (v2.exc.split(':')[0], pi, qi), z3.BoolVal(False), v2.where)
                     continue
                 r.oblige(s2, 'unedited:header-then-the-octets-that-were-read/p%d.%d' % (pi, qi), ex.seq(v2, s2) == z3.Concat(HDR, body))
+            # (3) a copy of the parsed packet is written with the octets that were read, too (D39: octets that are not UTF-8)
+            s5 = s.clone()
+            lkc = repo.lookup(UID, '__copy__')
+            for qi, (s6, c) in enumerate(ex.call_func(E.VFunc(lkc[2], None, cls=lkc[1], self_val=me, mod=repo.classes[lkc[1]].module), [], {}, s5, {'mod': repo.classes[lkc[1]].module})):
+                if isinstance(c, E.Raise) or not isinstance(c, E.VObj):
+                    r.oblige(s6, 'copy:safety/p%d.%d' % (pi, qi), z3.BoolVal(False), getattr(c, 'where', None))
+                    continue
+                for ri, (s7, v7) in enumerate(ex.call_func(E.VFunc(lk[2], None, cls=lk[1], self_val=c, mod=repo.classes[lk[1]].module), [], {}, s6, {'mod': repo.classes[lk[1]].module})):
+                    if isinstance(v7, E.Raise):
+                        r.oblige(s7, 'copy:safety(%s)/p%d.%d.%d' % (v7.exc.split(':')[0], pi, qi, ri), z3.BoolVal(False), v7.where)
+                        continue
+                    r.oblige(s7, 'copy:header-then-the-octets-that-were-read/p%d.%d.%d' % (pi, qi, ri),
+                             z3.And(z3.BoolVal(c.ref != 'pkt'), ex.seq(v7, s7) == z3.Concat(HDR, body)))
             # (2) the text replaced after parsing (UTF-8 path): the NEW text is written
             s3 = s.clone()
             s3.pc.append(VALID(body))
